@@ -249,6 +249,6 @@ Fixpoint trace (c : config) (w : world) (evs : list event) : list obs :=
 
 Definition lucky_of (l : list bool) (k : N) : bool := nth (N.to_nat k) l false.
 
-Definition run_obs (ds : list disc) (lucky : list bool) (evs : list event) : obs :=
-  let c := {| discs := ds; ecfg := {| tx_cfg := None; btx_cfg := None |}; won := lucky_of lucky |} in
+Definition run_obs (ds : list disc) (txc : option (N * N)) (lucky : list bool) (evs : list event) : obs :=
+  let c := {| discs := ds; ecfg := {| tx_cfg := txc; btx_cfg := None |}; won := lucky_of lucky |} in
   OL (trace c w0 evs).
